@@ -258,6 +258,64 @@ Proof.
 Qed.
 Print Assumptions C04_record_kinds_covered.
 
+(* ---------------------------------------------------------------- skip_list ("configurations" of the quantifier) *)
+(* [load_dir_skip s r] = kapture_from_dir(dir, skip_list = s): by definition of the model, the load of the directory
+   in which the skipped parts do not exist; the correspondence run checks that this is what the code does. *)
+
+(* an empty skip list is the plain load *)
+Theorem C04_skip_nothing : forall r, load_dir_skip skip_none r = load_dir r.
+Proof. exact load_dir_skip_none. Qed.
+Print Assumptions C04_skip_nothing.
+
+(* whatever is skipped, a successful load is reference-closed with respect to the REAL directory [r] (data files
+   exist in r, not merely in the reduced view), complete for everything that is not skipped, and the skipped
+   parts are absent *)
+Theorem C04_skip_closed : forall s r d, load_dir_skip s r = Ok d ->
+  closed r d /\ skipped_absent s d /\
+  complete (skip_raw s r) d /\ (d_version d = Tload.current_version -> complete_recon (skip_raw s r) d).
+Proof.
+  intros s r d H. pose proof (C04_closed _ _ H) as C. split; [|split; [exact (skip_absent s r d H) | exact (C04_complete _ _ H)]].
+  constructor.
+  - exact (cl_sensors_unique _ _ C).
+  - exact (cl_records _ _ C).
+  - exact (cl_traj _ _ C).
+  - exact (cl_rigs _ _ C).
+  - exact (cl_nocollision _ _ C).
+  - intros fk t i F. destruct (cl_feat _ _ C fk t i F) as [A B]. split; [exact A | exact (file_exists_skip s r fk t i B)].
+  - intros t p M. destruct (cl_matches _ _ C t p M) as [A [B E]].
+    split; [exact A | split; [exact B | exact (match_file_exists_skip s r t p E)]].
+  - exact (cl_obs _ _ C).
+Qed.
+Print Assumptions C04_skip_closed.
+
+(* WHAT SKIPPING MUST NOT CHANGE: when both loads succeed, every part that is not skipped is exactly the part of
+   the plain load (version and sensors always), with the one dependency the code has: when the rigs are skipped the
+   trajectories are the plain ones minus the entries of rigs.  (Features, matches and observations are stated for
+   records_camera not skipped: with it skipped the loader asserts as soon as one of their folders exists.) *)
+Theorem C04_skip_frame : forall s r d d0, load_dir_skip s r = Ok d -> load_dir r = Ok d0 -> skip_frame s r d d0.
+Proof. exact skip_frame_holds. Qed.
+Print Assumptions C04_skip_frame.
+
+(* skipping never turns a loadable directory into a refused one except through the loader's own assertions
+   (features / matches with records_camera skipped, observations with keypoints or points3d skipped) *)
+Theorem C04_skip_refuses_only_by_assertion : forall s r d0,
+  load_dir r = Ok d0 -> (d_version d0 = Tload.current_version -> asserts_ok (skip_raw s r)) ->
+  exists d, load_dir_skip s r = Ok d.
+Proof. exact skip_ok. Qed.
+Print Assumptions C04_skip_refuses_only_by_assertion.
+
+(* the skippable parts of the model are the loadable types of the tree under test (all but Sensors, which the loader
+   reads unconditionally) *)
+Theorem C04_skippable_parts_covered :
+  seteqb ("Sensors" :: skippable_classes) Tload.loadable_types = true /\
+  List.length skippable_classes = 17%nat /\ NoDup skippable_classes.
+Proof.
+  split; [vm_compute; reflexivity|]. split; [reflexivity|].
+  assert (E : dedup skippable_classes = skippable_classes) by (vm_compute; reflexivity).
+  rewrite <- E. apply dedup_NoDup.
+Qed.
+Print Assumptions C04_skippable_parts_covered.
+
 (* ---------------------------------------------------------------- non-vacuity *)
 (* a directory with every part, and a dangling entry of every class of the quantifier *)
 Definition ex_raw : rawdir := {|
@@ -316,4 +374,30 @@ Proof.
   split; [eexists; split; [vm_compute; reflexivity | cbn; repeat split]|].
   split; [vm_compute; reflexivity|]. split; [vm_compute; reflexivity|].
   split; [eexists; split; [vm_compute; reflexivity | reflexivity]|]. vm_compute; reflexivity.
+Qed.
+
+(* skip lists on the same directory: rigs skipped -> the entries of rigs leave the trajectories, the rest stays;
+   a collision is not seen when the rigs are skipped; records_camera skipped alone -> the loader asserts; skipped
+   together with everything that depends on it -> loads, without them *)
+Definition sk_only_rigs : skipset :=
+  {| sk_rigs := true; sk_traj := false; sk_rec := fun _ => false; sk_feat := fun _ => false;
+     sk_matches := false; sk_points := false; sk_obs := false |}.
+Definition sk_only_camera : skipset :=
+  {| sk_rigs := false; sk_traj := false; sk_rec := fun k => match k with RCamera => true | _ => false end;
+     sk_feat := fun _ => false; sk_matches := false; sk_points := false; sk_obs := false |}.
+Definition sk_camera_and_dependents : skipset :=
+  {| sk_rigs := false; sk_traj := false; sk_rec := fun k => match k with RCamera => true | _ => false end;
+     sk_feat := fun _ => true; sk_matches := true; sk_points := false; sk_obs := true |}.
+
+Example C04_example_skip :
+  (exists d, load_dir_skip sk_only_rigs ex_raw = Ok d /\ d_rigs d = None /\ d_traj d = Some [(1, "lid0")]%Z /\
+  d_records d RLidar = Some [(1, "lid0", "p.pcd")]%Z /\ d_obs d = Some [(0, "sift", "a.jpg", 1)]%Z) /\
+  (exists d, load_dir_skip sk_only_rigs (with_rigs [("rig0", "cam0"); ("lid0", "cam0")] ex_raw) = Ok d) /\
+  load_dir_skip sk_only_camera ex_raw = Err EAssert /\
+  (exists d, load_dir_skip sk_camera_and_dependents ex_raw = Ok d /\ d_records d RCamera = None /\
+  d_feat d FKeypoints = None /\ d_points d = Some 2%N /\ d_records d RGnss = Some [(0, "gnss0", "")]%Z).
+Proof.
+  split; [eexists; split; [vm_compute; reflexivity | cbn; repeat split]|].
+  split; [eexists; vm_compute; reflexivity|]. split; [vm_compute; reflexivity|].
+  eexists; split; [vm_compute; reflexivity | cbn; repeat split].
 Qed.
